@@ -274,7 +274,10 @@ func (l *lowerer) attribute(f *Field) *dt.Node {
 
 func (l *lowerer) namedAttr(fn, name string, a *Attr, tag int) *dt.Node {
 	var n *dt.Node
-	if tag > 0 {
+	if tag > 0 && fn == "ErrorName" {
+		// ErrorName(tag, name, type ...): the field-numbered form
+		n = dt.N("ErrorName", dt.I(int64(tag)), dt.S(name))
+	} else if tag > 0 {
 		n = dt.N("Field", dt.I(int64(tag)), dt.S(name))
 	} else {
 		n = dt.N(fn, dt.S(name))
